@@ -10,5 +10,5 @@ if [ ! -d $WT ]; then
   ( cd $WT && (git apply /verif/benign/$name/patch.diff 2>/dev/null || git apply --3way /verif/benign/$name/patch.diff >/dev/null 2>&1) ) || { echo PATCH-FAILED; exit 2; }
 fi
 for c in "$@"; do
-  EG_REPO=$WT VERIF_EVIDENCE_DIR=/tmp/bnw/ev-$name ./check $c 2>&1 | grep -E "^rule=|^VIOLATION|^KNOWN|Traceback|Error" | cut -c1-${W:-300} | head -${N:-30}
+  EG_REPO=$WT VERIF_EVIDENCE_DIR=/tmp/bnw/ev-$name ./check $c 2>&1 | grep -a -E "^rule=|^VIOLATION|^KNOWN|Traceback|Error" | cut -c1-${W:-300} | head -${N:-30}
 done
